@@ -141,10 +141,22 @@ def program_value(v, colname: str) -> dict:
 VALUE_CASES = [(None, "s"), (None, "i"), (None, "b"), (True, "b"), (False, "b"), (-3, "i"), (0, "i"), (-2.5, "f"), (-3, "f"), (0.0, "f")]
 
 
+def program_value_key(v, colname: str) -> dict:
+    """the value as a constant column that is used as a grouping key and as a sort key (an integer in GROUP BY / ORDER BY
+    would be read as a select-list position)"""
+    base = program_value(v, colname)
+    x = {"col": ["t0", colname]}
+    base["stmts"] = [dict(id="t0", op="source", table="g"), dict(id="t1", op="mutate", src="t0", cols=[["c", {"lit": v}]]),
+                     dict(id="t2", op="group_by", src="t1", cols=[x, {"c": "c"}]),
+                     dict(id="t3", op="summarize", src="t2", cols=[["n", {"fn": "count_star", "args": []}], ["m", {"fn": "max", "args": [{"col": ["t0", "id"]}]}]]),
+                     dict(id="t4", op="arrange", src="t3", by=[{"c": "c"}, {"c": "m"}]), dict(id="x", op="export", src="t4", ordered=True)]
+    return base
+
+
 def value_stream():
     diffs, n = [], 0
-    for v, cn in VALUE_CASES:
-        prog = program_value(v, cn)
+    progs = [(v, cn, program_value(v, cn)) for v, cn in VALUE_CASES] + [(v, cn, program_value_key(v, cn)) for v, cn in VALUE_CASES if v is not None]
+    for v, cn, prog in progs:
         res = {}
         for be in ("polars", "sqlite"):
             obs = P.run_program(prog, be, observe_cache=False)
